@@ -72,7 +72,11 @@ impl ExponentialFamily {
         let n = y.len();
         assert_eq!(n, mu.len());
         match self {
-            ExponentialFamily::Gaussian => norm(&vsub(y, mu)),
+            ExponentialFamily::Gaussian => {
+                // residual sum of squares (the norm is its square root)
+                let r = norm(&vsub(y, mu));
+                r * r
+            }
             ExponentialFamily::Bernoulli => {
                 (0..n)
                     .map(|i| y[i] * mu[i].ln() + (1. - y[i]) * (1. - mu[i]).ln())
